@@ -95,7 +95,11 @@ class Check:
                     n += 1
                     a, b = r.mos_object, r.mos_object
                     ok = (r.message_id == want.message_id and r.ro_id == want.ro_id and r.mos_type is type(want)
-                          and a is not b and str(a) == str(b) == str(want) and type(a) is type(want))
+                          and a is not b and a.xml is not b.xml and str(a) == str(b) == str(want) and type(a) is type(want))
+                    if ok and type(a).__name__ == 'RunningOrder':
+                        # every restore is fresh: what happens to one restored object does not show in the next
+                        a += MosFile.from_string(to_text(story_append(77, [story('FRESH')])))
+                        ok = str(b) == str(want) and str(r.mos_object) == str(want)
                     sigs.add(('reader', how, ok))
                     if not ok:
                         vio.append({'what': 'MosReader.from_%s does not report / restore the message faithfully' % how,
